@@ -559,14 +559,56 @@ def r1_6(repo: Repo) -> RuleResult:
     return rr
 
 
-RULES = [r1_1, r1_2, r1_3, r1_4, r1_5, r1_6]
+def r1_7(repo: Repo) -> RuleResult:
+    rr = RuleResult("R1.7", "tree vectorizer: the order of the directional column blocks equals the order of their labels", floor=1)
+    TREE = "vectorizers/tree_token_cooccurrence.py"
+    k = repo.func(TREE, "sequence_tree_skip_grams")
+    fit = repo.func(TREE, "LabelledTreeCooccurrenceVectorizer.fit")
+    # kernel: which branch transposes, and in which order does 'directional' stack?
+    before_is_T = None
+    stack = None
+    for n in walk_no_nested(k.node):
+        if isinstance(n, ast.If) and isinstance(n.test, ast.Compare) and norm(n.test.left) == "window_orientation" and isinstance(n.test.comparators[0], ast.Constant):
+            key = n.test.comparators[0].value
+            body = " ".join(norm(x) for x in n.body)
+            if key == "before":
+                before_is_T = "global_counts = global_counts.T" in body
+            if key == "directional":
+                for c in ast.walk(n.body[0]):
+                    if isinstance(c, ast.Call) and norm(c.func).endswith("hstack") and isinstance(c.args[0], (ast.List, ast.Tuple)):
+                        stack = [norm(x) for x in c.args[0].elts]
+    if before_is_T is None or stack is None or len(stack) != 2:
+        raise AnalysisError("R1.7: orientation dispatch of sequence_tree_skip_grams not recognised")
+    first_is_before = (stack[0] == "global_counts.T") == before_is_T and stack[0] != stack[1]
+    # labels: which prefix gets the offset len(dictionary)?
+    offset_prefix = None
+    plain_prefix = None
+    for n in walk_no_nested(fit.node):
+        if isinstance(n, ast.DictComp) and isinstance(n.key, ast.BinOp) and isinstance(n.key.left, ast.Constant):
+            pref = n.key.left.value
+            if "len(self.token_label_dictionary_)" in norm(n.value):
+                offset_prefix = pref
+            else:
+                plain_prefix = pref
+    if offset_prefix is None or plain_prefix is None:
+        raise AnalysisError("R1.7: directional column labels not recognised in LabelledTreeCooccurrenceVectorizer.fit")
+    want_plain = "pre_" if first_is_before else "post_"
+    if plain_prefix == want_plain and offset_prefix != plain_prefix:
+        rr.ok(fit, "directional blocks", "matrix blocks %s; labels %r (offset 0) then %r (offset n)" % (stack, plain_prefix, offset_prefix), fit.node.lineno)
+    else:
+        rr.bad(fit, "directional blocks", "the matrix stacks %s (first block is the %s block) but the first n columns are labelled %r: "
+               "columns do not keep the meaning recorded in the column dictionary" % (stack, "before" if first_is_before else "after", plain_prefix), fit.node.lineno)
+    return rr
+
+
+RULES = [r1_1, r1_2, r1_3, r1_4, r1_5, r1_6, r1_7]
 
 CLAIM = (
     "R1.1 every sparse matrix assembled from a coordinate/CSR triple on a transform path passes shape= whose column "
     "extent is over fitted state only (taint analysis from transform's arguments); R1.2 CSR row pointers advance by "
     "exactly the number of indices appended for the row; R1.3 each row loop terminates its row exactly once and has no "
     "loop-level continue/break/return; R1.4 every dictionary look-up in fitted vocabulary keyed by transform input is "
-    "guarded by an enumerated idiom; R1.5 out-of-range characters are mapped to code 0; R1.6 dense result buffers have one row per item and a fitted width."
+    "guarded by an enumerated idiom; R1.5 out-of-range characters are mapped to code 0; R1.6 dense result buffers have one row per item and a fitted width; R1.7 the tree vectorizer labels its directional column blocks in the order it stacks them."
 )
 NOT_DECIDED = (
     "that each column keeps its meaning beyond shape and guarded look-up (code->column mapping is under C06/C16), row "
